@@ -387,6 +387,9 @@ def check_C04(ctx):
                 seen.add((tid, m))
                 items.append((tid, m, '-', kind, None))
         items.append((tid, hx, '-', 'valid', None))
+        # what the bytes denote does not depend on what the destination held: the same input into an object of the type
+        # that already holds another value (judged against the documented decoding like every other case)
+        items.append((tid, hx, '-', 'valid', nopgen.gen_value(pool.types[tid], ctx.rng)))
     # all 256 first bytes for one value of every type; random bytes
     first = {}
     for tid, hx in encs:
@@ -1140,6 +1143,29 @@ def check_C09(ctx):
                         'IsFungible<A,B> is true but re-encoding the value as B gives different bytes: A = %s, B = %s, value %s: %s vs %s'
                         % (type_desc(pool, r['tid'])[:70], type_desc(pool, j)[:70], r['h']['dump'][:60], r['h']['bytes'][:60], str(f.get('bytes'))[:60]),
                         {'A': type_desc(pool, r['tid']), 'B': type_desc(pool, j), 'value': r['h']['dump']})
+    # Protocol<P>: Write / Read are callable exactly for the types fungible with P — also when P is a C array
+    pm = run_prim(pool, ['protomatrix'])[0]
+    ctx.count('protocol-matrix', 'protomatrix')
+    pf = sx.fields(pm) if pm.startswith('write=') else {}
+    names = ['int[3]', 'int[5]', 'array<int,3>', 'array<int,5>', 'vector<int>', 'tuple<int,int,int>', 'pair<int,int>', 'float[3]', 'array<float,3>',
+             'vector<float>', 'tuple<float,float,float>', 'int', 'string', 'vector<string>', 'string[3]']
+    if not pf:
+        ctx.violate('harness-crash', 'protomatrix failed: ' + pm[:200], {'output': pm})
+    else:
+        fw, fr, ff = (pf[k].strip('/').split('/') for k in ('write', 'read', 'fungible'))
+        for i, pn in enumerate(names):
+            for j, tn in enumerate(names):
+                if fw[i][j] != ff[i][j] or fr[i][j] != ff[i][j]:
+                    ctx.violate('protocol-gate', 'Protocol<%s>::Write(%s) is %s and Read is %s although IsFungible<%s, %s> is %s' %
+                                (pn, tn, 'callable' if fw[i][j] == '1' else 'rejected', 'callable' if fr[i][j] == '1' else 'rejected', pn, tn, 'true' if ff[i][j] == '1' else 'false'),
+                                {'protocol_type': pn, 'value_type': tn, 'matrix': pm})
+        # documented relations among these types: arrays and vectors of one element type (equal lengths for arrays); tuples
+        # join them for non-integral elements only (integral sequences are BIN, tuples are ARY)
+        want_true = [(0, 2), (2, 0), (0, 4), (4, 0), (7, 8), (8, 9), (7, 10), (10, 7), (1, 3), (3, 4), (13, 14)]
+        want_false = [(0, 1), (1, 0), (0, 3), (2, 3), (0, 7), (4, 9), (11, 12), (0, 11), (5, 6), (1, 5), (0, 5), (4, 5)]
+        for (i, j), w in [(p, '1') for p in want_true] + [(p, '0') for p in want_false]:
+            if ff[i][j] != w:
+                ctx.violate('fungible-doc', 'IsFungible<%s, %s> is %s' % (names[i], names[j], 'true' if ff[i][j] == '1' else 'false'), {'matrix': pm})
     report_broken(ctx, broken, 'trait', 'IsFungible<A,B>::value = model fungible a b over all ordered pairs of the pool')
     return finish_with_proofs(ctx, {'pool_types': n, 'ordered_pairs': n * n, 'fungible_pairs': len(pairs)})
 
@@ -1437,6 +1463,55 @@ def check_C17(ctx):
             else:
                 # checked writers must refuse exactly the over-capacity calls: decided against the model
                 ctx.violate('writer-contract:' + k, 'writer %s deviates from the byte-sink contract (refusals / bytes): %s -> %s (expected %s)' % (k, line[:200], o[:160], m[:160]), {'case': line, 'output': o, 'model': m})
+    # a stream that refuses data after CAP bytes (a full device): the call that does not fit must report the failure, and so
+    # must every later call that carries bytes; what arrived is a prefix of what was sent.  Plain and under BoundedWriter.
+    ll = []
+    for cap, calls, used in wl:
+        sent = ''
+        need = []
+        for c in calls:
+            if c[0] == 'w':
+                b = '%02x' % int(c[1:])
+            elif c[0] == 'W':
+                b = c.split('x', 1)[1]
+            elif c[0] == 'K':
+                n_, v_ = c[1:].split(':'); b = ('%02x' % int(v_)) * int(n_)
+            else:
+                b = None
+            need.append(b)
+        for k in ('lstream', 'blstream'):
+            ll.append((k, cap, calls, need, 'wseq %s %d %d - 0 %s' % (k, cap, 2 ** 40, ','.join(calls) or '-')))
+    lo = run_prim(pool, [x[4] for x in ll])
+    for (k, cap, calls, need, line), o in zip(ll, lo):
+        ctx.count('writer:' + k, line)
+        if o.startswith(('CRASH', 'HARNESS', 'EXCEPTION', 'OOM')):
+            ctx.violate('memory-error:' + k, 'writer %s crashed or tripped a sanitizer: %s -> %s' % (k, line[:200], o[:300]), {'case': line, 'output': o})
+            continue
+        f = sx.fields(o)
+        res = f['res'].split(',') if f['res'] != '-' else []
+        got = '' if f['bytes'] == '-' else f['bytes']
+        cum, failed, bad = 0, False, None
+        sent = ''
+        for c, b, r in zip(calls, need, res):
+            if b is None or b == '':
+                continue                      # Prepare and zero-length calls: not judged
+            nb = len(b) // 2
+            fits = not failed and cum + nb <= cap
+            if fits and r != '0':
+                bad = 'call %s fits (%d + %d <= %d) but returned %s' % (c[:20], cum, nb, cap, r)
+            elif not fits and r == '0':
+                bad = 'call %s does not fit (%d + %d > %d, or the stream had already failed) but reported success' % (c[:20], cum, nb, cap)
+            if bad:
+                break
+            sent += b
+            if fits:
+                cum += nb
+            else:
+                failed = True
+        if not bad and not (sent.startswith(got) and len(got) // 2 >= min(cum, cap) and len(got) // 2 <= cap):
+            bad = 'the stream holds %s, not a prefix (of at least %d bytes) of what was sent %s' % (got[:60], cum, sent[:60])
+        if bad:
+            ctx.violate('writer-contract:' + k, 'StreamWriter over a stream that takes %d bytes: %s: %s -> %s' % (cap, bad, line[:200], o[:160]), {'case': line, 'output': o})
     # compile time = run time = documented format
     cx = run_prim(pool, ['cxcases'])[0]
     f = sx.fields(cx)
@@ -1483,6 +1558,26 @@ def check_C18(ctx):
                         % (len(d), k0, k1, f['h'], f['hchar'], ref), {'case': line, 'output': o, 'standard': ref})
         elif g.get('h') != f['h'] or g.get('spec') != f['h']:
             ctx.violate('corr:siphash', 'model SipHash disagrees: %s vs %s' % (m, o), {'no_failing_input': True, 'case': line, 'model': m, 'output': o})
+    # long inputs: 1 MiB + 13 bytes against the Python reference (which also validates the harness's own C reference),
+    # and in the thorough tier 4 GiB and 4 GiB + 13 bytes against that C reference (lengths that do not fit 32 bits)
+    big = [(20, 13)] + ([] if ctx.quick else [(32, 0), (32, 13)])
+    bo = run_parallel([os.path.join(pool.dir, 'prim')], ['sipbig %d %d %d %d' % (lg, ex, nopgen.TABLE_K0, nopgen.TABLE_K1) for lg, ex in big], env=ASAN_ENV, what='prim', chunk_timeout=3000)
+    for (lg, ex), o in zip(big, bo):
+        line = 'sipbig %d %d' % (lg, ex)
+        ctx.count('long-input', line)
+        f = sx.fields(o) if o.startswith('h=') else {}
+        if not f:
+            if o != 'unsupported':
+                ctx.violate('harness-crash', 'sipbig failed: %s -> %s' % (line, o[:300]), {'case': line, 'output': o})
+            continue
+        if lg == 20:
+            data = bytes((1 << 20)) + bytes(range(1, ex + 1))
+            py = nopgen.siphash24(data, nopgen.TABLE_K0, nopgen.TABLE_K1)
+            if f['ref'] != str(py):
+                ctx.violate('harness-error', 'the harness reference SipHash disagrees with the Python reference on %d bytes' % len(data), {'case': line, 'output': o, 'python': py})
+                continue
+        if f['h'] != f['ref']:
+            ctx.violate('siphash-long', 'SipHash::Compute over %s bytes (zeros, then 1..%d) gives %s; SipHash-2-4 gives %s' % (f['n'], ex, f['h'], f['ref']), {'case': line, 'output': o})
     # the array overload at run time (the one the macros evaluate at compile time): arrays of 1..40 elements, zero bytes inside
     al = []
     for n in range(1, 41):
